@@ -51,6 +51,32 @@ Definition mean_long (retro : bool) (e pomega M theta f : T) : T :=
   then (if retro then pomega - M else pomega + M)
   else (if retro then theta + two * e * l_sin L f else theta - two * e * l_sin L f).
 
+(* (omega, pomega, f, theta) before normalisation.
+   near-planar branch (inc < MIN_INC or inc > pi - MIN_INC): theta and pomega come from the position / eccentricity
+   vector, omega := pomega - Omega (retrograde: Omega - pomega), f := theta - pomega (retrograde: pomega - theta) *)
+Definition planar_angles (retro : bool) (Omega dx dy d ex ey e : T) : T * T * T * T :=
+  let theta := acos2 dx d dy in
+  let pomega := acos2 ex e ey in
+  if retro then (Omega - pomega, pomega, pomega - theta, theta)
+  else (pomega - Omega, pomega, theta - pomega, theta).
+
+(* generic branch: omega and omega+f are measured from the node in the orbital plane; pomega := Omega + omega,
+   theta := Omega + (omega+f) (retrograde: Omega - omega, Omega - (omega+f)); f := (omega+f) - omega in both *)
+Definition generic_angles (retro : bool) (Omega nx ny nn dx dy dz d ex ey ez e : T) : T * T * T * T :=
+  let wpf := acos2 (nx*dx + ny*dy) (nn*d) dz in
+  let omega := acos2 (nx*ex + ny*ey) (nn*e) ez in
+  if retro then (omega, Omega - omega, wpf - omega, Omega - wpf)
+  else (omega, Omega + omega, wpf - omega, Omega + wpf).
+
+(* mean anomaly before normalisation: Kepler's equation from the eccentric anomaly (elliptic: acos2 with the sign of the
+   radial velocity; hyperbolic: acosh with that sign) *)
+Definition mean_anomaly_raw (d a e vr : T) : T :=
+  if e <? one
+  then (let ea := acos2 (one - d / a) e vr in ea - e * l_sin L ea)
+  else (let ea := l_acosh L2 ((one - d / a) / e) in
+        let ea := if vr <? zero then - ea else ea in
+        e * l_sinh L ea - ea).
+
 (* inl c: *err = c and reb_orbit_nan() returned.  t0 = p.sim->t (0 if the particle is in no simulation). *)
 Definition orbit_from_particle_err (tiny G t0 : T) (p prim : part T) : Z + orbit :=
   if pm prim <=? tiny then inl 1%Z else
@@ -80,23 +106,12 @@ Definition orbit_from_particle_err (tiny G t0 : T) (p prim : part T) : Z + orbit
   let nx := - hy in let ny := hx in
   let nn := sqrt (nx*nx + ny*ny) in
   let Omega := acos2 nx nn ny in
-  let M :=
-    if e <? one
-    then (let ea := acos2 (one - d / a) e vr in ea - e * l_sin L ea)
-    else (let ea := l_acosh L2 ((one - d / a) / e) in
-          let ea := if vr <? zero then - ea else ea in
-          e * l_sinh L ea - ea) in
+  let M := mean_anomaly_raw d a e vr in
   let retro := negb (inc <? pi / two) in
   let '(omega, pomega, f, theta) :=
     if orb (inc <? MIN_INC) ((pi - MIN_INC) <? inc)
-    then (let theta := acos2 dx d dy in
-          let pomega := acos2 ex e ey in
-          if retro then (Omega - pomega, pomega, pomega - theta, theta)
-          else (pomega - Omega, pomega, theta - pomega, theta))
-    else (let wpf := acos2 (nx*dx + ny*dy) (nn*d) dz in
-          let omega := acos2 (nx*ex + ny*ey) (nn*e) ez in
-          if retro then (omega, Omega - omega, wpf - omega, Omega - wpf)
-          else (omega, Omega + omega, wpf - omega, Omega + wpf)) in
+    then planar_angles retro Omega dx dy d ex ey e
+    else generic_angles retro Omega nx ny nn dx dy dz d ex ey ez e in
   let l := mean_long retro e pomega M theta f in
   let Tp := t0 - M / nabs N n in
   let fac := sqrt (two / (one + hz / h)) / h in
